@@ -103,7 +103,7 @@ func randC06Config(r *gen.Rand, c *c06Case) {
 	c.BW = gen.Pick(r, 4, 8, 16, 32, 64)
 	c.BH = gen.Pick(r, 4, 8, 16, 32, 64)
 	c.Levels = r.Intn(7)
-	c.Class = gen.Pick(r, "noise", "noise", "noise", "zero", "impulses", "lowamp", "const", "smooth", "altext", "runs")
+	c.Class = gen.Pick(r, "noise", "noise", "noise", "zero", "impulses", "lowamp", "const", "smooth", "altext", "runs", "checker", "checker", "vstripes", "specks", "specks", "bands")
 	c.Aux = 1 + r.Intn(6)
 	c.CSeed = r.U64()
 }
